@@ -125,14 +125,21 @@ impl FileReader for LSPFileReader {
     ) -> Result<(Uuid, String), FileReaderError> {
         // if there is an parent_file, find its path and use that as the parent
         let fulluri = match parent_file {
+            // (a path that does not make a URI is an error on the directive,
+            // not the end of the analysis)
             Some(uuid) => {
-                let doc = self.file_uris.get(&uuid).unwrap();
-                let uri = lsp_types::Url::parse(&doc.uri).unwrap();
-                let fileuri = uri.join(path).unwrap();
+                let doc = self
+                    .file_uris
+                    .get(&uuid)
+                    .ok_or(FileReaderError::InternalFileNotFound)?;
+                let uri = lsp_types::Url::parse(&doc.uri).map_err(|_| FileReaderError::InvalidPath)?;
+                let fileuri = uri.join(path).map_err(|_| FileReaderError::InvalidPath)?;
                 fileuri.to_string()
             }
             // otherwise, this is the full path to the file, denoted by its uri
-            None => lsp_types::Url::parse(path).unwrap().to_string(),
+            None => lsp_types::Url::parse(path)
+                .map_err(|_| FileReaderError::InvalidPath)?
+                .to_string(),
         };
 
         // find file in values of hashmap
